@@ -16,7 +16,7 @@ LEVEL = 'exploration'
 RULE = ('Cases: edit histories from a seeded generator that picks the next operation from the current state. Non-trivial iff the history contains a removal that moves '
         'another element into the hole and a later edit touches the moved element. Distinct = digest of the executed operation log.')
 ASSUMPTIONS = ['well-formed use: explicit pins only on free positions, a fork has at most one driver and only implicit output pins, no self loops, nodes are removed only '
-               'when disconnected and not ports, eliminate_1to1_forks only when every single-reader fork is driven, substitute only with matching pin counts',
+               'when disconnected and not ports, substitute only with matching pin counts',
                'pin lists are compared modulo trailing unconnected positions after copy / pickle']
 REACH = {'circuit.containers': ('circuit.py', 19, 37), 'circuit.node_line': ('circuit.py', 45, 190), 'circuit.transforms': ('circuit.py', 347, 492)}
 
@@ -51,7 +51,7 @@ def norm(snap):
 def contracted_connections(c):
     """expected line set after eliminate_1to1_forks, from the pre-state (names, pins)"""
     ios = {id(n) for n in c.io_nodes}
-    gone = {id(n) for n in c.forks.values() if id(n) not in ios and len(n.outs) == 1}
+    gone = {id(n) for n in c.forks.values() if id(n) not in ios and len(n.outs) == 1 and len(n.ins) > 0 and n.ins[0] is not None}
     exp = set()
     for l in c.lines:
         if id(l.reader) in gone:
@@ -218,9 +218,6 @@ def run_history(case, ctx):
                 log.append(('io_add', n.name))
             elif op == 'eliminate':
                 ios = {id(n) for n in c.io_nodes}
-                one = [n for n in c.forks.values() if id(n) not in ios and len(n.outs) == 1]
-                if any(len(n.ins) == 0 or n.ins[0] is None for n in one):
-                    continue        # an undriven single-reader fork: the call is an error, not an inconsistency
                 exp, ngone = contracted_connections(c)
                 if any(d == r for d, _, r, _ in exp):
                     continue        # contracting would turn a loop through a fork into a self-loop line (outside well-formed use)
@@ -352,8 +349,6 @@ def corpus(ctx, spec):
                             continue
                         c.resolve_tlib_cells(tlib)
                     elif stage == 'eliminate':
-                        if name.endswith('.bench'):
-                            continue        # bench input ports are undriven forks; single-reader ones make the call an error
                         c.eliminate_1to1_forks()
                     elif stage == 'copy':
                         c = c.copy()
